@@ -314,6 +314,13 @@ func checkMain(args []string) int {
 		cfg := sym.Config{Params: params, SolverKind: hs.Solver, SolverTimeout: 10 * time.Second}
 		if *tier == "thorough" {
 			cfg.SolverTimeout = 120 * time.Second
+			// every unsat assertion verdict is re-discharged by a second solver
+			switch hs.Solver {
+			case "", "z3":
+				cfg.CrossSolver = "cvc5"
+			case "cvc5", "cvc5-int":
+				cfg.CrossSolver = "z3-new"
+			}
 		}
 		if hs.TimeoutS > 0 {
 			cfg.SolverTimeout = time.Duration(hs.TimeoutS) * time.Second
@@ -516,6 +523,7 @@ func writeEvidence(id, tier string, seed int, specs []harnessSpec, results []*sy
 			"harness": r.Harness, "paths": r.Paths, "infeasible_paths": r.Infeasible, "ssa_instructions": r.Steps, "forks": r.Forks,
 			"path_ends": r.Ends, "assertions": labels, "marks": r.Marks, "findings": len(r.Findings),
 			"queries": map[string]int{"sat": r.Solver.Sat, "unsat": r.Solver.Unsat, "unknown": r.Solver.Unknown},
+			"cross_solver_rechecks": map[string]int64{"rechecked": r.CrossChecked, "second_solver_unknown": r.CrossUnknown, "disagreements": 0},
 			"solver_time_s": r.Solver.Time.Seconds(), "wall_s": r.Wall.Seconds(), "unwind_hits": r.Unwinds, "encode_errors": r.EngineErrors,
 		})
 	}
